@@ -184,6 +184,28 @@ Proof.
   intros m d H E. left. split; [|reflexivity]. apply (is_empty_iff _ _ H). exact E.
 Qed.
 
+(* one estimate, with the exact ends *)
+Lemma quantile_est_for : forall m d q,
+  td_R d m -> td_is_empty xarith d = false ->
+  est_for m q (td_quantile xarith (td_compress xarith d) q).
+Proof.
+  intros m d q H E. unfold td_R in H.
+  assert (NE : fin_inputs m <> []).
+  { intro N. apply (is_empty_iff _ _ H) in N. congruence. }
+  right. pose proof (inv_compress _ _ H) as HC.
+  destruct (quantile_range _ _ HC NE q)
+    as (lo & hi & v & Hmin & Hmax & Hlo & Hhi & Ev & Hv).
+  exists lo, hi, v. split; [exact Hlo|]. split; [exact Hhi|]. split; [exact Ev|].
+  split; [exact Hv|]. split.
+  - intro Hq.
+    destruct (inv_nonempty _ _ HC NE) as (lo' & hi' & W & Nc & _).
+    pose proof (quantile_at_0 _ q Nc Hq) as E0. rewrite Hmin in E0. congruence.
+  - intro Hq.
+    destruct (quantile_at_1 _ _ HC NE q Hq) as (hi1 & x1 & Hmax1 & _ & Q1 & Hx1).
+    assert (hi1 = hi) by congruence. subst hi1.
+    assert (x1 = v) by congruence. subst x1. exact Hx1.
+Qed.
+
 Theorem aq_lawful : forall qs c, lawful (aq_combiner xarith qs c) td_R (aq_spec qs).
 Proof.
   intros qs c. constructor; cbn [aq_combiner c_create c_add c_merge c_finish c_build].
@@ -192,12 +214,11 @@ Proof.
   - intros a b m m' Ha Hb. unfold td_R in *. rewrite fin_inputs_app. apply inv_merge; assumption.
   - intro vs. apply td_R_build.
   - intros a m m' H P. eapply td_R_perm; eassumption.
-  - intros a m H. unfold aq_spec. split.
-    + apply quantiles_pointwise.
-    + intros x Hx. unfold aq_finish in Hx. destruct (td_is_empty xarith a) eqn:E.
-      * apply in_map_iff in Hx. destruct Hx as (q & <- & _). eapply empty_est_in_range; eassumption.
-      * unfold td_quantiles in Hx. apply in_map_iff in Hx. destruct Hx as (q & <- & _).
-        apply quantile_est_in_range; assumption.
+  - intros a m H. unfold aq_spec, aq_finish. destruct (td_is_empty xarith a) eqn:E.
+    + induction qs as [|q qs IH]; cbn [map]; constructor; [|exact IH].
+      left. split; [apply (is_empty_iff _ _ H); exact E | reflexivity].
+    + unfold td_quantiles. induction qs as [|q qs IH]; cbn [map]; constructor; [|exact IH].
+      apply quantile_est_for; assumption.
 Qed.
 
 Theorem am_lawful : forall c, lawful (am_combiner xarith c) td_R am_spec.
